@@ -41,6 +41,7 @@ def Node.flat : Node V → FNodes V
   | .ifn _ _ ch => ch.flat
   | .forn _ its => its.flat
   | .fornK _ _ its => its.flat
+  | .tnode _ _ ch => ch.flat
 def Nodes.flat : Nodes V → FNodes V
   | .nil => .nil
   | .cons n r => n.flat.append r.flat
@@ -62,12 +63,17 @@ def denote (s : Sem E V T) (D : V) (sc : List V) : Tpl E → FNodes V
   | .cond bs => denoteBr s D sc bs
   | .loop l body => concatItems (fun a x => denoteL s D (sc ++ [a, x]) body) (s.items (s.eval l D sc))
   | .loopK l _ body => concatItems (fun a x => denoteL s D (sc ++ [a, x]) body) (s.items (s.eval l D sc))
+  | .tref is fields cases => denoteT s (s.mkObj (evalAttrs s D sc fields)) cases (selOf s (s.eval is D sc))
 def denoteL (s : Sem E V T) (D : V) (sc : List V) : Tpls E → FNodes V
   | .nil => .nil
   | .cons t r => (denote s D sc t).append (denoteL s D sc r)
 def denoteBr (s : Sem E V T) (D : V) (sc : List V) : Branches E → FNodes V
   | .last he els => if he then denoteL s D sc els else .nil
   | .cons c body r => if s.truthy (s.eval c D sc) then denoteL s D sc body else denoteBr s D sc r
+/-- `<template is>`: the first template of that name, under the data object built from the `data` fields and without scope variables -/
+def denoteT (s : Sem E V T) (D : V) : TCases E → Option String → FNodes V
+  | .nil, _ => .nil
+  | .cons name body r, sel => if sel = some name then denoteL s D [] body else denoteT s D r sel
 end
 
 theorem firstTrue_range (s : Sem E V T) (D : V) (sc : List V) : ∀ (bs : Branches E) (i : Nat),
@@ -100,6 +106,9 @@ theorem create_denotes (s : Sem E V T) (now : Nat) (D : V) : ∀ (t : Tpl E) (sc
   | .loopK l key body, sc => by
     simp only [create, Node.flat, denote]
     exact mkItems_flat now _ _ (fun a x => createL_denotes s now D body (sc ++ [a, x])) _
+  | .tref is fields cases, sc => by
+    simp only [create, Node.flat, denote]
+    exact createT_denotes s now _ cases _
 theorem createL_denotes (s : Sem E V T) (now : Nat) (D : V) : ∀ (ts : Tpls E) (sc : List V), (createL s now D sc ts).flat = denoteL s D sc ts
   | .nil, _ => rfl
   | .cons t r, sc => by simp only [createL, Nodes.flat, denoteL, create_denotes s now D t sc, createL_denotes s now D r sc]
@@ -125,6 +134,14 @@ theorem createBr_denotes (s : Sem E V T) (now : Nat) (D : V) : ∀ (bs : Branche
         · exact beq_false_of_ne (by omega)
       simp only [createBr, hne, Bool.false_eq_true, if_false]
       exact createBr_denotes s now D r sc (i + 1) (by omega)
+theorem createT_denotes (s : Sem E V T) (now : Nat) (D : V) : ∀ (cs : TCases E) (sel : Option String),
+    (createT s now D cs sel).flat = denoteT s D cs sel
+  | .nil, _ => rfl
+  | .cons name body r, sel => by
+    simp only [createT, denoteT]
+    split
+    · exact createL_denotes s now D body []
+    · exact createT_denotes s now D r sel
 end
 
 /-- C04 at the tag level: creation builds exactly the denoted elements and text nodes, in document order -/
